@@ -28,6 +28,27 @@ CHECKS["C13"] = dict(
    text="TLC checks alloc <= 12 MiB + 64 N and linear step counts for the models of all decoding APIs on ~650k short messages (struct bodies bare, strict/legacy enveloped, framed, and bodies shaped like the plugin/api types) in which every 4-byte window is overwritten by 2^16..2^32-1; a config that pre-allocates the legacy name must violate the bound. The same messages are run through 25 real APIs (Decode+force, stream decode, Skip seek/stream, DecodeEnveloped, DecodeRequest, ReadRequest, ReadEnvelopeBegin, frame.Reader, generated Decode/FromWire of 8 plugin/api types) in child processes under an address-space limit; TotalAlloc delta and source-call counts are judged by TLC.",
    note="Trusted: TLC, Json module, runtime.MemStats. C=12 MiB covers the documented 10 MiB frame fast path and 1 MiB binary threshold. Wall time is never judged. Known finding C13-gen-stream-presize (generated streaming Decode).")
 
+CHECKS["C07"] = dict(
+   level="model_checking", ref="DESIGN.md section 5 (C07), section 3 (Linker.tla)",
+   technique="TLA+ model of the linker (Linker.tla: state-passing Link operators with linkOnce, cached roots, scopes) model-checked by TLC over five program families x all link orders (MCLinker.tla, negative control = pinned linker); programs replayed on the real compiler under forced link orders (verif hook) and natural order; judged by C07Trace.tla against Denote(prog) and the model run",
+   text="TLC checks, for every program of five bounded families (3 type definitions of every shape; 3 constants over every type/value shape; 3 services; struct defaults <-> constants <-> structs; two files with all include shapes and qualified/bare references) and every order in which compiler.link can range over its maps, that success/failure and every typedef root equal the order-free meaning Denote(prog), that recursion depth is bounded and parent chains finite. The programs are rendered to IDL (definitions shuffled) and compiled by the real compiler under up to N forced link orders plus natural runs; TLC compares outcome, typedef roots, shared include identity with Denote and with the model executed under the same order (zero drift on the unchanged tree).",
+   note="Trusted: TLC, Json module, the IDL renderer, the link-order hook (pre-links in schedule order, then the unmodified link pass). Known finding C07-default-cast-while-linking (recognised through the model's hazard flag).")
+CHECKS["C08"] = dict(
+   level="model_checking", ref="DESIGN.md section 5 (C08)",
+   technique="MCLinker.tla invariants NoOverflow/ParentsFinite over every reference-cycle shape and link order (negative control = pinned linker); programs + structural cycle family + token-level mutants run through compile.Compile and gen.Generate in crash-isolated children; outcome invariant judged by C08Trace.tla",
+   text="Exhaustive on the model: no linking order of any program with typedef/const/default/service/include cycles exceeds the recursion fuel, and the generator's parent walk is finite. On the code: those programs, 16 further cycle kinds x length 1..3, include loops, and thousands of seeded token mutants of the repository's IDL and raw bytes are compiled and generated in child processes; a child that dies (stack overflow, panic) or hangs is attributed to the case in flight. The raw-bytes/mutant part is exploration under a trivial outcome spec.",
+   note="Trusted: TLC, child-process isolation with wall-clock timeout. For arbitrary bytes the spec contributes only 'result xor descriptive error'.")
+CHECKS["C09"] = dict(
+   level="model_checking", ref="DESIGN.md section 5 (C09), Numeric.tla",
+   technique="TLA+ model of the numeric compile loops on 64-bit limbs (Numeric.tla/MCNumeric.tla, negative control = unchecked conversions) model-checked by TLC; every numeric context x boundary literal compiled by the real compiler; compiled numbers compared limb by limb with the source's meaning by C09Trace.tla",
+   text="TLC checks NoSilentWrap for compileEnum (explicit/implicit continuation), compileFields (strict, non-strict, auto-assigned negative ids) and ConstantInt.Link over all sequences of boundary literals; the pinned (unchecked) variant must violate it. Exhaustive replay: 3.5k programs = every numeric position (field ids, enum values, i8..i64 constants, defaults, list elements, map keys, typedef'd constants) x 115 literal spellings around 0, 2^7, 2^8, 2^15, 2^16, 2^31, 2^32, 2^63, strict and non-strict, plus duplicate id/name/item and self-definition programs; TLC recomputes the meant numbers and checks equality and range for every accepted program and model-conformant acceptance.",
+   note="Trusted: TLC, Json module, limb splitting in the harness. Exhaustive over the stated literal table, not over all integers.")
+CHECKS["C10"] = dict(
+   level="model_checking", ref="DESIGN.md section 5 (C10)",
+   technique="MCLinker.tla order-freedom invariants (TLC, all link orders) + history-carrying trace spec C10Trace.tla over repeated in-process / cross-process / forced-link-order generations with sha256 digests of every generated file and of the canonicalised plugin request",
+   text="Design level: for every program of the Linker families, every link order yields the same outcome and roots (so generation input is order-free). Code level: Linker-family programs are generated under forced link orders and natural map order, the repository's own test IDL under 4 option sets and seeded big multi-file programs (maps with >= 9 entries, map/set/struct constants, cross-file service inheritance) under 2, several times in each of 3-6 processes; the trace spec fixes the first (outcome, path->digest map, request digest) per input and rejects any later difference.",
+   note="Trusted: sha256, Go's per-process hash seed as the source of map-order variation plus the link-order hook. Known finding C10-default-cast-while-linking.")
+
 NOT_YET = {}
 
 def main():
